@@ -1,7 +1,7 @@
 (* C20 -- Configuration is honoured (the builder -> configuration function; the OS socket layer, rustls'
    negotiation and quinn's timers are observed by the suites "bind", "idle", "alpn", "reload", not modelled). *)
-From WT.Model Require Import Base Varint Ids Tls.
-From WT.Proofs Require Import TlsP.
+From WT.Model Require Import Base Varint Ids Tls Config.
+From WT.Proofs Require Import TlsP ConfigP.
 
 (* the six bind presets: address and dual-stack mode (IPV6_V6ONLY set / cleared / left to the OS) *)
 Theorem C20_bind_presets :
@@ -19,6 +19,36 @@ Theorem C20_idle_timeout :
     (forall ms, idle_accept secs nanos = Some ms -> ms = idle_ms secs nanos /\ ms < two62) /\
     (idle_accept secs nanos = None <-> two62 <= idle_ms secs nanos).
 Proof. exact idle_accept_spec. Qed.
+
+(* ---- the transport setters of both builders (Model/Config.v), for every chain of calls ---- *)
+(* build() yields a configuration exactly when every requested idle timeout is representable, and then every
+   field holds what the LAST call of its setter asked for (quinn's default when there was none) *)
+Theorem C20_setter_chains_honoured :
+  forall ops c,
+    cbuild c ops = if forallb idle_ok ops
+                   then Some (mktcfg (last_idle ops (t_idle c)) (last_keep ops (t_keep c)) (last_migr ops (t_migr c)))
+                   else None.
+Proof. exact cbuild_spec. Qed.
+Theorem C20_invalid_idle_gives_no_configuration :
+  forall ops c, cbuild c ops = None <-> forallb idle_ok ops = false.
+Proof. exact cbuild_refuses. Qed.
+(* a setter call changes its own field only; calls of different setters commute *)
+Theorem C20_setter_frame :
+  forall c o c', capply c o = Some c' ->
+    match o with
+    | SetIdle _ => t_keep c' = t_keep c /\ t_migr c' = t_migr c
+    | SetKeep k => t_idle c' = t_idle c /\ t_migr c' = t_migr c /\ t_keep c' = k
+    | SetMigr b => t_idle c' = t_idle c /\ t_keep c' = t_keep c /\ t_migr c' = b
+    end.
+Proof. exact capply_frame. Qed.
+Theorem C20_setters_commute :
+  forall c a b, same_setter a b = false -> cbuild c [a; b] = cbuild c [b; a].
+Proof. exact setters_commute. Qed.
+
+Example C20_setter_example :
+  cbuild tdefault [SetKeep (Some 250); SetIdle None; SetMigr false; SetIdle (Some (2, 500000000))]
+  = Some (mktcfg (Some 2500) (Some 250) false).
+Proof. vm_compute. reflexivity. Qed.
 
 Example C20_example :
   idle_accept 30 0 = Some 30000 /\ idle_accept 4611686018427387 904000000 = None /\
